@@ -264,10 +264,8 @@ Qed.
 (* ------------------------------------------------------------------ findings, as theorems about the faithful model *)
 Definition sample_dt : pdt := mkpdt 2024 7 6 0 0 0 0 true 0 [43;48;48;58;48;48] [43;48;48;58;48;48].   (* a Saturday *)
 
-Lemma nl_has_no_week_data : l_first_day loc_nl = None.
-Proof. reflexivity. Qed.
-
-Lemma nl_is_the_only_one : forallb (fun l => match l_first_day l with Some _ => true | None => str_eqb (l_name l) [110;108] end) locales = true.
+(* every shipped locale has week_data (nl lacked it until the fix: commit in /repo) *)
+Lemma every_locale_has_week_data : forallb (fun l => match l_first_day l with Some _ => true | None => false end) locales = true.
 Proof. vm_compute. reflexivity. Qed.
 
 (* parse(format(dt, fmt), fmt) in the model *)
@@ -768,8 +766,12 @@ Proof. intros H. rewrite tok_MMM. apply en_month_abbr. exact H. Qed.
 Lemma tok_dddd_en rec t : format_token rec loc_en t T_dddd = Ok (nth (Z.to_nat (weekday0 (ordn t))) en_day_names []).
 Proof. rewrite tok_dddd. apply en_day_wide. unfold weekday0. lia. Qed.
 
-Lemma nl_e_raises rec t : format_token rec loc_nl t T_e = Raise E_TypeError.
-Proof. apply tok_e_none. reflexivity. Qed.
+Lemma tok_e_every_locale rec loc t : In loc locales -> exists fd, l_first_day loc = Some fd /\
+  format_token rec loc t T_e = Ok (render_d ((weekday0 (ymd2ord (t_year t) (t_month t) (t_day t)) mod 7 - fd) mod 7)).
+Proof.
+  intros Hl. pose proof (proj1 (forallb_forall _ _) every_locale_has_week_data loc Hl) as E. cbv beta in E.
+  destruct (l_first_day loc) as [fd|] eqn:Hfd; [|discriminate]. exists fd. split; [reflexivity|]. apply tok_e. exact Hfd.
+Qed.
 
 Lemma localized_names_total l : In l locales ->
   (forall m, 1 <= m <= 12 -> (exists c s, tbl_get (l_months_wide l) m = Ok (c :: s)) /\ (exists c s, tbl_get (l_months_abbr l) m = Ok (c :: s))) /\
